@@ -540,7 +540,9 @@ def main(argv):
             base_tree = parse(CATALOGUE[name], "f2003")
             for pos in range(0, len(lines) + 1):
                 # text after the keyword of #else / #endif (the usual '#endif /* MACRO */') belongs to the directive
-                trailing = ["#else /* !HAVE_MPI */", "#endif /* HAVE_MPI */", "#endif // X", "#else  ! not X"]
+                trailing = ["#else /* !HAVE_MPI */", "#endif /* HAVE_MPI */", "#endif // X", "#else  ! not X",
+                            # no blank between the keyword and what follows it
+                            "#if(defined(X))", "#if!defined(X)", "#elif(A)", "#include\"f.h\"", "#ifdef X", "#  if defined(Y)", "#define F(a,b) a+b"]
                 for d in directives[:: (1 if tier == "thorough" else 3)] + ([directives[-1]] if tier != "thorough" else []) + (trailing if tier == "thorough" or pos % 3 == 1 else []):
                     src = "\n".join(lines[:pos] + [d] + lines[pos:]) + "\n"
                     cases += 1
